@@ -268,7 +268,7 @@ func (r *Run) jobMain(j *JobRec) int {
 	j.Args = args
 	argMap, _ := args.(map[string]interface{})
 	// join arguments come wrapped with the resources; strip "__"-prefixed keys for F.
-	fargs := stripDunder(argMap)
+	fargs, _ := r.normFiles(stripDunder(argMap)).(map[string]interface{})
 
 	// Every file named in the arguments must exist now (C04).
 	r.checkArgFiles(j, args)
